@@ -2231,6 +2231,12 @@ func ConcreteNextHopProto(e *aft.Afts_NextHop) (*aftpb.Afts_NextHopKey, error) {
 	}, nhproto); err != nil {
 		return nil, fmt.Errorf("cannot marshal next-hop index %d, %v", e.GetIndex(), err)
 	}
+	// The gNMI to protobuf mapping does not populate boolean leaves, so
+	// pop-top-label is copied explicitly to keep the returned entry equal to
+	// what was programmed.
+	if e.PopTopLabel != nil && nhproto.PopTopLabel == nil {
+		nhproto.PopTopLabel = &wpb.BoolValue{Value: *e.PopTopLabel}
+	}
 	return &aftpb.Afts_NextHopKey{
 		Index:   *e.Index,
 		NextHop: nhproto,
